@@ -18,6 +18,13 @@
 //   components (geo/block factors)   no independent value: the efficiency the object reports is used
 //   calibrated table u               u_b/(calibration factor * branching ratio)
 //   chain                            product of the members
+//
+// Histories (C13 extension): morph() changes the factors of a REAL object that has already been set up (and used) into those of
+// another spec of the same shape through the PUBLIC routes only - crystal_efficiencies() / geometric_factors() / block_factors() of
+// BinNormalisationPETFromComponents, the ProjData behind get_norm_proj_data_sptr() of BinNormalisationFromProjData,
+// set_calibration_factor() / set_radionuclide() of BinNormalisationWithCalibration, the members behind get_first_norm() /
+// get_second_norm() of a chain - never allocate(), never a new object.  World::pdi_override / exam give the alternative geometries
+// and exam infos an object is set up with earlier in its history.
 #ifndef REF_BINNORM_H
 #define REF_BINNORM_H
 #include "vmc.h"
@@ -108,6 +115,7 @@ struct World
   std::unique_ptr<BinIndex> bi, bi_nt, bi_big;
   std::vector<size_t> nt_of; // flat index in the non-TOF geometry of every bin
   shared_ptr<ExamInfo> exam;
+  shared_ptr<ProjDataInfo> pdi_override;                       // histories: use this sampling instead of the one of g (same scanner object)
   shared_ptr<DataSymmetriesForViewSegmentNumbers> sym;         // null for sy == 0
   shared_ptr<DataSymmetriesForViewSegmentNumbers> sym_for_vg;  // never null
   size_t nb = 0, nvox = 0;
@@ -127,6 +135,7 @@ struct World
     bits = sy == 0 ? 0 : (sy - 1) % 8;
     variant = sy == 0 ? 0 : (sy - 1) / 8;
     b = g34::build(g);
+    if (pdi_override) b.pdi = pdi_override;
     ExamInfo ex; ex.imaging_modality = ImagingModality::PT;
     b.im->set_exam_info(ex);
     exam.reset(new ExamInfo(ex));
@@ -219,6 +228,112 @@ inline Ref unit_ref(size_t nb)
   return r;
 }
 
+// ------------------------------------------------------------------------------------------------ factor sets of the leaves
+// (shared by build_leaf, which makes a new object, and morph_leaf, which changes an existing one through its public accessors)
+
+// projection-data factors: "0"/"1"/"2" labelling sets, "i" all ones, "u<k>" all 1 except factor k = 2; false: not applicable (why)
+inline bool projdata_factors(World& w, char kind, const std::string& arg, Vec& n, std::string& why)
+{
+  const BinIndex* fbi = kind == 'P' ? w.bi_nt.get() : kind == 'Q' ? w.bi.get() : w.bi_big.get();
+  if (kind == 'Q' && !w.tof) { why = "TOF factors need TOF data"; return false; }
+  if (kind == 'S' && !w.pdi_big) { why = "no larger segment range available"; return false; }
+  n.assign(fbi->n, 1.0);
+  if (arg[0] == 'u') { const size_t k = (size_t)atol(arg.substr(1).c_str()); if (k >= n.size()) { why = "unit factor index outside the data"; return false; } n[k] = 2.0; }
+  else if (arg[0] == 'i') {}
+  else { const int d = atoi(arg.c_str()); for (size_t i = 0; i < n.size(); ++i) n[i] = factor(i, d); }
+  return true;
+}
+
+// component tables: per component '-' not allocated, '1' all ones, 'a' / 'b' two labelling sets; dead: crystal (0,1) has efficiency 0
+struct CompSpec
+{
+  char e = '-', g = '-', b = '-';
+  bool dead = false, valid = true;
+  bool same_allocation(const CompSpec& o) const { return (e == '-') == (o.e == '-') && (g == '-') == (o.g == '-') && (b == '-') == (o.b == '-'); }
+};
+// e: efficiencies (labelling), z: efficiencies with one dead crystal, 1: efficiencies all 1, b: efficiencies (second labelling),
+// t: all three components all 1, n: no component at all, x: all three components with labelling values,
+// three letters of {-,1,a,b}: efficiencies, geometric factors, block factors separately (histories that change ONE component)
+inline CompSpec parse_comp(const std::string& arg)
+{
+  CompSpec s;
+  if (arg.size() == 3)
+    {
+      s.e = arg[0]; s.g = arg[1]; s.b = arg[2];
+      for (char ch : arg) if (ch != '-' && ch != '1' && ch != 'a' && ch != 'b') s.valid = false;
+      return s;
+    }
+  const char v = arg.empty() ? 'e' : arg[0];
+  switch (v)
+    {
+    case 'e': s.e = 'a'; break;
+    case 'z': s.e = 'a'; s.dead = true; break;
+    case '1': s.e = '1'; break;
+    case 'b': s.e = 'b'; break;
+    case 't': s.e = s.g = s.b = '1'; break;
+    case 'n': break;
+    case 'x': s.e = s.g = s.b = 'a'; break;
+    default: s.valid = false;
+    }
+  return s;
+}
+// geometric / block factors are stored for crystals in DIFFERENT transaxial blocks only (FanProjData of blocks, indexed without range
+// check when NDEBUG, even number of blocks asserted): assert-only preconditions, so they are only used where they hold
+inline bool block_tables_cover_all_bins(const Scanner& sc, const ProjDataInfo& pdi, std::string& why)
+{
+  auto cyl = dynamic_cast<const ProjDataInfoCylindricalNoArcCorr*>(&pdi);
+  if (!cyl) { why = "not cylindrical"; return false; }
+  const int tb = sc.get_num_transaxial_crystals_per_block(), nblk = sc.get_num_transaxial_blocks();
+  if (nblk % 2 != 0 || nblk < 2) { why = "block factors need an even number of transaxial blocks (assert-only precondition)"; return false; }
+  for (const Bin& q : small::all_bins(pdi))
+    {
+      int d1, r1, d2, r2;
+      cyl->get_det_pair_for_bin(d1, r1, d2, r2, q);
+      if (d1 / tb == d2 / tb) { why = "a bin connects two crystals of the same block: outside the block/geo factor tables (assert-only precondition)"; return false; }
+    }
+  return true;
+}
+// writes the tables of s through the public reference accessors; e receives the crystal efficiencies written (1 where none)
+inline void fill_components(World& w, BinNormalisationPETFromComponents& nc, const CompSpec& s, std::vector<std::vector<double>>& e)
+{
+  const int R = w.b.sc->get_num_rings(), D = w.b.sc->get_num_detectors_per_ring();
+  e.assign(R, std::vector<double>(D, 1.0));
+  if (s.e != '-')
+    for (int r = 0; r < R; ++r)
+      for (int d = 0; d < D; ++d)
+        {
+          if (s.e == 'a') e[r][d] = factor((size_t)r * D + d, 2);
+          if (s.e == 'b') e[r][d] = factor((size_t)r * D + d, 3);
+          if (s.dead && r == 0 && d == 1) e[r][d] = 0;
+          nc.crystal_efficiencies()[r][d] = (float)e[r][d];
+        }
+  if (s.g != '-')
+    {
+      size_t k = 0;
+      for (auto it = nc.geometric_factors().begin_all(); it != nc.geometric_factors().end_all(); ++it, ++k) *it = s.g == '1' ? 1.F : factor(k, s.g == 'a' ? 0 : 2);
+    }
+  if (s.b != '-')
+    {
+      BlockData3D& bd = nc.block_factors();
+      size_t k = 0;
+      for (int ra = bd.get_min_ra(); ra <= bd.get_max_ra(); ++ra)
+        for (int a = bd.get_min_a(); a <= bd.get_max_a(); ++a)
+          for (int rb = bd.get_min_rb(ra); rb <= bd.get_max_rb(ra); ++rb)
+            for (int bb = bd.get_min_b(a); bb <= bd.get_max_b(a); ++bb, ++k) bd(ra, a, rb, bb) = s.b == '1' ? 1.F : factor(k, s.b == 'a' ? 1 : 3);
+    }
+}
+// calibrated table: 0: calibration factor 1 (not set), no radionuclide; 1: calibration 4, branching ratio 0.5; z: calibration 0.5 and one bin with
+// efficiency 0 (the tables use other permutations of the labelling values than the projection-data factors they are chained with)
+inline void table_params(World& w, const std::string& arg, std::vector<float>& u, float& calib, float& br)
+{
+  const char v = arg.empty() ? '0' : arg[0];
+  calib = v == '0' ? 1.F : (v == '1' || v == 'r') ? 4.F : 0.5F; // r: as 1 without the radionuclide
+  br = v == '1' ? 0.5F : -1.F;
+  u.resize(w.nb);
+  for (size_t i = 0; i < w.nb; ++i) u[i] = factor(w.nb - 1 - i, (v == '1' || v == 'r') ? 0 : 2);
+  if (v == 'z') u[std::min<size_t>(3, w.nb - 1)] = 0.F;
+}
+
 // one leaf: letter + argument
 inline BuiltNorm build_leaf(World& w, char kind, const std::string& arg)
 {
@@ -239,11 +354,9 @@ inline BuiltNorm build_leaf(World& w, char kind, const std::string& arg)
       {
         const BinIndex* fbi = kind == 'P' ? w.bi_nt.get() : kind == 'Q' ? w.bi.get() : w.bi_big.get();
         shared_ptr<ProjDataInfo> fpdi = kind == 'P' ? w.pdi_nt : kind == 'Q' ? w.b.pdi : w.pdi_big;
-        if (kind == 'Q' && !w.tof) return skip("TOF factors need TOF data");
-        if (kind == 'S' && !w.pdi_big) return skip("no larger segment range available");
-        Vec n(fbi->n, 1.0);
-        if (arg[0] == 'u') { const size_t k = argnum(1); if (k >= n.size()) return skip("unit factor index outside the data"); n[k] = 2.0; }
-        else { const int d = atoi(arg.c_str()); for (size_t i = 0; i < n.size(); ++i) n[i] = factor(i, d); }
+        Vec n;
+        std::string why;
+        if (!projdata_factors(w, kind, arg, n, why)) return skip(why);
         o.n.reset(new BinNormalisationFromProjData(projdata_from(fpdi, w.exam, *fbi, n)));
         for (size_t i = 0; i < w.nb; ++i)
           {
@@ -251,7 +364,7 @@ inline BuiltNorm build_leaf(World& w, char kind, const std::string& arg)
             const size_t fi = kind == 'Q' ? i : kind == 'P' ? w.nt_of[i] : fbi->idx(q.segment_num(), q.axial_pos_num(), q.view_num(), q.tangential_pos_num(), 0);
             o.r.eff[i] = 1.0 / (double)(float)n[fi];
           }
-        o.r.nonunit = true;
+        o.r.nonunit = arg[0] != 'i';
         o.r.sig = kind == 'P' ? "projdata" : kind == 'Q' ? "projdata_tof" : "projdata_more_segments";
         break;
       }
@@ -309,52 +422,26 @@ inline BuiltNorm build_leaf(World& w, char kind, const std::string& arg)
       }
     case 'C':
       {
-        // e: efficiencies (labelling), z: efficiencies with one dead crystal, 1: efficiencies all 1, t: all three components all 1,
-        // n: no component at all, x: all three components with labelling values
-        const char v = arg.empty() ? 'e' : arg[0];
-        const bool do_eff = v != 'n', do_geo = v == 't' || v == 'x', do_block = do_geo;
+        // (letters: see parse_comp)
+        const CompSpec cs = parse_comp(arg);
+        if (!cs.valid) return skip("unknown component spec " + arg);
+        const bool do_eff = cs.e != '-', do_geo = cs.g != '-', do_block = cs.b != '-';
         auto cyl = dynamic_cast<const ProjDataInfoCylindricalNoArcCorr*>(w.b.pdi.get());
         const bool supported = cyl && w.g.span == 1 && w.g.mash == 1 && !w.tof; // else documented as unsupported: set_up will reject
-        if (do_geo && supported)
+        if ((do_geo || do_block) && supported)
           {
-            // geometric / block factors are stored for crystals in DIFFERENT transaxial blocks only (FanProjData of blocks, indexed
-            // without range check when NDEBUG, even number of blocks asserted): assert-only preconditions, so only use them where they hold
-            const int tb = w.b.sc->get_num_transaxial_crystals_per_block(), nblk = w.b.sc->get_num_transaxial_blocks();
-            if (nblk % 2 != 0 || nblk < 2) return skip("block factors need an even number of transaxial blocks (assert-only precondition)");
-            for (const Bin& q : w.bi->bins)
-              {
-                int d1, r1, d2, r2;
-                cyl->get_det_pair_for_bin(d1, r1, d2, r2, q);
-                if (d1 / tb == d2 / tb) return skip("a bin connects two crystals of the same block: outside the block/geo factor tables (assert-only precondition)");
-              }
+            std::string why;
+            if (!block_tables_cover_all_bins(*w.b.sc, *w.b.pdi, why)) return skip(why);
           }
         auto nc = std::make_shared<BinNormalisationPETFromComponents>();
         nc->allocate(w.b.pdi, do_eff, do_geo, do_block);
-        const int R = w.b.sc->get_num_rings(), D = w.b.sc->get_num_detectors_per_ring();
-        std::vector<std::vector<double>> e(R, std::vector<double>(D, 1.0));
-        if (do_eff)
-          for (int r = 0; r < R; ++r)
-            for (int d = 0; d < D; ++d)
-              {
-                if (v == 'e' || v == 'z' || v == 'x') e[r][d] = factor((size_t)r * D + d, 2);
-                if (v == 'z' && r == 0 && d == 1) e[r][d] = 0;
-                nc->crystal_efficiencies()[r][d] = (float)e[r][d];
-              }
-        if (do_geo)
-          {
-            size_t k = 0;
-            for (auto it = nc->geometric_factors().begin_all(); it != nc->geometric_factors().end_all(); ++it, ++k) *it = v == 't' ? 1.F : factor(k, 0);
-            BlockData3D& bd = nc->block_factors();
-            k = 0;
-            for (int ra = bd.get_min_ra(); ra <= bd.get_max_ra(); ++ra)
-              for (int a = bd.get_min_a(); a <= bd.get_max_a(); ++a)
-                for (int rb = bd.get_min_rb(ra); rb <= bd.get_max_rb(ra); ++rb)
-                  for (int bb = bd.get_min_b(a); bb <= bd.get_max_b(a); ++bb, ++k) bd(ra, a, rb, bb) = v == 't' ? 1.F : factor(k, 1);
-          }
+        std::vector<std::vector<double>> e;
+        fill_components(w, *nc, cs, e);
         o.n = nc;
         o.r.sig = "components";
-        o.r.nonunit = !(v == '1' || v == 't' || v == 'n');
-        if (v == 'x') { o.r.known.assign(w.nb, 0); break; }
+        o.r.nonunit = cs.e == 'a' || cs.e == 'b' || cs.g == 'a' || cs.g == 'b' || cs.b == 'a' || cs.b == 'b';
+        // geometric / block factors other than 1: no independent model here (C20)
+        if (cs.g == 'a' || cs.g == 'b' || cs.b == 'a' || cs.b == 'b') { o.r.known.assign(w.nb, 0); break; }
         if (!supported) { o.r.known.assign(w.nb, 0); break; }
         // the class works on a "fan" that is symmetric in the tangential position: for bins outside [-h, h], h = min(max, -min), the
         // property statement does not say what the efficiency is (STIR gives 0): no independent reference there
@@ -371,13 +458,9 @@ inline BuiltNorm build_leaf(World& w, char kind, const std::string& arg)
       }
     case 'W':
       {
-        // 0: calibration factor 1 (not set), no radionuclide; 1: calibration 4, branching ratio 0.5; z: calibration 0.5 and one bin with efficiency 0
-        // (the tables use other permutations of the labelling values than the projection-data factors they are chained with)
-        const char v = arg.empty() ? '0' : arg[0];
-        const float calib = v == '0' ? 1.F : v == '1' ? 4.F : 0.5F, br = v == '1' ? 0.5F : -1.F;
-        std::vector<float> u(w.nb);
-        for (size_t i = 0; i < w.nb; ++i) u[i] = factor(w.nb - 1 - i, v == '1' ? 0 : 2);
-        if (v == 'z') u[std::min<size_t>(3, w.nb - 1)] = 0.F;
+        std::vector<float> u;
+        float calib, br;
+        table_params(w, arg, u, calib, br);
         o.n.reset(new TableNorm(w.bi.get(), u, calib, br));
         for (size_t i = 0; i < w.nb; ++i) o.r.eff[i] = (double)u[i] / ((double)calib * (br > 0 ? br : 1.0));
         o.r.nonunit = true;
@@ -434,6 +517,78 @@ inline BuiltNorm build(World& w, const std::string& s)
   BuiltNorm o = build(w, s, pos);
   if (pos != s.size()) throw std::runtime_error("bad norm spec " + s);
   return o;
+}
+
+// ------------------------------------------------------------------------------------------------ histories
+// "(a,b)" -> a, b (top-level comma); false for a leaf
+inline bool split_chain(const std::string& s, std::string& first, std::string& second)
+{
+  if (s.empty() || s[0] != '(' || s.back() != ')') return false;
+  int depth = 0;
+  for (size_t i = 0; i < s.size(); ++i)
+    {
+      if (s[i] == '(') ++depth;
+      else if (s[i] == ')') --depth;
+      else if (s[i] == ',' && depth == 1) { first = s.substr(1, i - 1); second = s.substr(i + 1, s.size() - i - 2); return true; }
+    }
+  return false;
+}
+
+struct HarnessError : std::logic_error { using std::logic_error::logic_error; };
+
+// changes the factors of the EXISTING leaf object N (built from kind+from) into those of kind+to through its public interface only
+inline void morph_leaf(World& w, BinNormalisation& N, char kind, const std::string& from, const std::string& to)
+{
+  switch (kind)
+    {
+    case 'T': return;
+    case 'P': case 'Q': case 'S':
+      {
+        Vec n; std::string why;
+        if (!projdata_factors(w, kind, to, n, why)) throw HarnessError("morph: " + why);
+        const BinIndex* fbi = kind == 'P' ? w.bi_nt.get() : kind == 'Q' ? w.bi.get() : w.bi_big.get();
+        shared_ptr<ProjData> pd = dynamic_cast<BinNormalisationFromProjData&>(N).get_norm_proj_data_sptr(); // the caller's own data set
+        fbi->write(*pd, n);
+        return;
+      }
+    case 'A': case 'D': case 'B':
+      if (from != to) throw HarnessError("morph: the attenuation image of an existing object cannot be changed through the public interface");
+      return;
+    case 'C':
+      {
+        const CompSpec a = parse_comp(from), b = parse_comp(to);
+        if (!a.valid || !b.valid || !a.same_allocation(b)) throw HarnessError("morph: component specs " + from + " -> " + to + " need another allocate()");
+        std::vector<std::vector<double>> e;
+        fill_components(w, dynamic_cast<BinNormalisationPETFromComponents&>(N), b, e);
+        return;
+      }
+    case 'W':
+      {
+        TableNorm& t = dynamic_cast<TableNorm&>(N);
+        float calib, br;
+        table_params(w, to, t.u, calib, br);
+        t.set_calibration_factor(calib);
+        t.set_radionuclide(br > 0 ? Radionuclide("verif", 511.F, br, 6000.F, ImagingModality::PT) : Radionuclide());
+        return;
+      }
+    default: throw HarnessError(std::string("morph: unknown leaf ") + kind);
+    }
+}
+// same for a whole spec (same shape and leaf kinds); the members of a chain are reached through get_first_norm()/get_second_norm()
+inline void morph(World& w, BinNormalisation& N, const std::string& from, const std::string& to)
+{
+  std::string f1, f2, t1, t2;
+  const bool cf = split_chain(from, f1, f2), ct = split_chain(to, t1, t2);
+  if (cf != ct) throw HarnessError("morph: different shapes " + from + " -> " + to);
+  if (cf)
+    {
+      ChainedBinNormalisation& ch = dynamic_cast<ChainedBinNormalisation&>(N);
+      morph(w, *ch.get_first_norm(), f1, t1);
+      morph(w, *ch.get_second_norm(), f2, t2);
+      return;
+    }
+  if (from.empty() || to.empty() || from[0] != to[0]) throw HarnessError("morph: different leaf kinds " + from + " -> " + to);
+  morph_leaf(w, N, from[0], from.substr(1), to.substr(1));
 }
 
 } // namespace bn
